@@ -295,6 +295,16 @@ theorem len_eq_reachable_all_interleavings {H : Hashes} (hH : HashOk H) {m0 : Se
     SegInv H st.m ∧ st.m.len = (st.m.reachable : Int) :=
   ireach_quiescent hH inv0 threads h hq
 
+/-- **Lookups under concurrent writers.** At every state any interleaving of
+lock-atomic sections can reach — writers in flight, adjustments pending —
+`Get`/`Has` (one read-locked section) return exactly the abstract map of that
+state: a key that is stored and untouched is found, whatever the writers of
+its segment are doing before and after. -/
+theorem lookups_exact_in_every_interleaving {H : Hashes} (hH : HashOk H) {m0 : SegMap V} (inv0 : SegInv H m0)
+    (threads : Nat) {st : CSt V} (h : IReach H ⟨m0, List.replicate threads 0⟩ st) (k : Nat) :
+    st.m.get H k = sabs H st.m k ∧ st.m.has H k = (sabs H st.m k).isSome :=
+  ireach_get_exact hH inv0 threads h k
+
 /-- The model's own operations are such steps: `Set` and `Del` are one
 section each, one spill eviction of `SetWithCap` is a deferred section
 followed by its flush. -/
@@ -364,6 +374,17 @@ theorem no_global_lock :
     SdnsVerif.Gen.C16.setwithcap_defers = 0 := by
   decide
 
+/-- The `Cache` methods the model folds into the segmented table are pure
+delegations in the compiled tree: `Add` is one `SetWithCap` (so its capacity
+check sits inside the segment's critical section), `Get` one `Get` (a blocking
+read lock, never a try-lock), `Remove` one `Del`, `ForEach` one `ForEach`
+(segment-at-a-time locking). -/
+theorem cache_methods_delegate :
+    SdnsVerif.Gen.C16.cache_delegations =
+      ["Add:SetWithCap", "ForEach:ForEach", "Get:Get", "Len:Len", "Remove:Del", "Stop:Stop"] ∧
+    SdnsVerif.Gen.C16.segmap_trylocks = 0 := by
+  decide
+
 /-- Every mutating method of the segmented table and the compare-then-act of
 `CompareAndSwap` / `CompareAndDelete` run under the WRITE lock of the key's
 segment (none takes only a read lock), the global counter is atomic, and the
@@ -407,6 +428,12 @@ example : IReach realHashes (⟨SegMap.new 4 0, [0, 0]⟩ : CSt Nat)
 example : Pow2 ((([Op.put 1 1, Op.put 2 2, Op.grow, Op.del 1] : List (Op Nat)).foldl (step lastSlot)
     (UMap.new 0 : UMap Nat)).data.size) := (table_length_power_of_two lastSlot_ok 0 _).1
 example : (12345 : Nat) &&& (16 - 1) = 12345 % 16 := ((table_length_power_of_two (V := Nat) lastSlot_ok 0 []).2 16 ⟨4, rfl⟩).1 _
+
+example : ((SegMap.new 4 0 : SegMap Nat).set realHashes 1 10).get realHashes 1 = some 10 := by
+  have h := (lookups_exact_in_every_interleaving realHashes_ok (segmap_new_spec (V := Nat) realHashes 4 0).1 2
+    (IReach.step (IReach.refl _)
+      ((ops_are_interleaving_steps realHashes_ok (segmap_new_spec realHashes 4 0).1 1 10 [0, 0]).1)) 1).1
+  rw [h, (segmap_refines realHashes_ok (segmap_new_spec realHashes 4 0).1 1 10).2.1.2.1 1, if_pos rfl]
 
 example : CReach 2 ⟨2, 0⟩ ⟨2, 0⟩ ∧ CReach 2 ⟨2, 0⟩ ⟨3, 1⟩ :=
   ⟨CReach.refl _, CReach.step (CReach.refl _) (CStep.insert ⟨2, 0⟩ true)⟩
